@@ -7,6 +7,8 @@ import (
 	"fmt"
 	"regexp"
 	"strings"
+
+	"github.com/titpetric/vuego"
 )
 
 var c03MarkRe = regexp.MustCompile(`\[([A-Za-z0-9-]+)\]`)
@@ -29,6 +31,12 @@ func (c c03Chain) markup(sep string, tag string, prefix string) string {
 			sb.WriteString(sep)
 		}
 		cond := fmt.Sprintf("%sc%d", prefix, i)
+		// members that ARE includes ("@include", "@shorthand"): the branch that is rendered is the component, which prints the marker
+		if inc, ok := c03IncludeMember[tag]; ok {
+			dir := map[string]string{"if": `v-if="` + cond + `"`, "elseif": `v-else-if="` + cond + `"`, "else": "v-else"}[k]
+			fmt.Fprintf(&sb, inc, dir, fmt.Sprintf("%sm%d", prefix, i))
+			continue
+		}
 		switch k {
 		case "if":
 			fmt.Fprintf(&sb, `<%s v-if="%s">[%sm%d]</%s>`, tag, cond, prefix, i, closeTag)
@@ -118,6 +126,15 @@ func c03ChainShapes(maxLen int) []c03Chain {
 	return out
 }
 
+// chain members that are includes: format strings taking the chain directive and the marker name
+var c03IncludeMember = map[string]string{
+	"@include":       `<template %s include="mark.vuego" mark="%s"></template>`,
+	"@include-bound": `<template %s include="mark.vuego" :mark="'%s'"></template>`,
+	"@shorthand":     `<mark-it %s mark="%s"></mark-it>`,
+}
+
+const c03MarkComponent = `<i>[{{ mark }}]</i>`
+
 type c03Placement struct {
 	name string
 	wrap func(chain string) string
@@ -144,8 +161,19 @@ func c03ChainCase(ch c03Chain, pl c03Placement, sep string, sepName string, tag 
 	tpl := pl.wrap(ch.markup(sep, tag, ""))
 	d := map[string]any{"two": []any{1, 2}, "yes": true}
 	ch.data("", d)
-	res := renderPage(map[string]string{"p.vuego": tpl}, "p.vuego", d)
-	pendingPages = append(pendingPages, pageCase("chain", map[string]string{"p.vuego": tpl}, nil, "p.vuego", d, "placement:"+pl.name))
+	files := map[string]string{"p.vuego": tpl}
+	var comps map[string]string
+	var opts []vuego.LoadOption
+	if _, ok := c03IncludeMember[tag]; ok {
+		files["mark.vuego"] = c03MarkComponent
+		if tag == "@shorthand" {
+			files = map[string]string{"p.vuego": tpl, "components/MarkIt.vuego": c03MarkComponent}
+			comps = map[string]string{"mark-it": "components/MarkIt.vuego"}
+			opts = append(opts, vuego.WithComponents())
+		}
+	}
+	res := renderPage(files, "p.vuego", d, opts...)
+	pendingPages = append(pendingPages, pageCase("chain", files, comps, "p.vuego", d, "placement:"+pl.name))
 	c := &Case{Name: fmt.Sprintf("chain %v %v in %s sep %s tag %s", ch.kinds, ch.truth, pl.name, sepName, tag),
 		Input: map[string]any{"stream": "chain", "kinds": ch.kinds, "truth": ch.truth, "placement": pl.name, "sep": sepName, "tag": tag, "tpl": tpl},
 		Impl:  res.canon(), Oracle: &Verdict{OK: true}, Tags: []string{"stream:chain", "placement:" + pl.name, "sep:" + sepName, fmt.Sprintf("len:%d", len(ch.kinds))}}
@@ -208,6 +236,12 @@ func c03Chains(r *Run) {
 		r.Add(c03ChainCase(ch, c03Placements[0], "", "none", "template|v-once"))
 		r.Add(c03ChainCase(ch, c03Placements[1], " ", "ws", "p|v-once"))
 		r.Add(c03ChainCase(ch, c03Placements[1], "", "none", "template|v-once"))
+		// members that are includes or component tags: the selected branch is the component
+		for _, inc := range []string{"@include", "@include-bound", "@shorthand"} {
+			r.Add(c03ChainCase(ch, c03Placements[0], "", "none", inc))
+			r.Add(c03ChainCase(ch, c03Placements[1], "\n  ", "ws", inc))
+			r.Add(c03ChainCase(ch, c03Placements[4], "", "none", inc))
+		}
 		// (v-pre members are not generated: an element with v-pre is exempt from directive processing, so whether it is a member of a chain at
 		// all is v-pre's business, not this property's)
 	}
